@@ -3,8 +3,13 @@ package props
 import (
 	"fmt"
 	"go/ast"
+	"go/constant"
 	"go/token"
+	"go/types"
+	"regexp"
 	"strings"
+
+	"octoverif/engine/absint"
 
 	"octoverif/core"
 )
@@ -48,67 +53,120 @@ func runC28(c *core.Ctx) {
 	c.SawFunc("plugins/manager.(*PluginManager).ListInstalledPlugins")
 
 	// ---- LAYOUT
-	sprintfPrefix := func(fn *core.FuncRef) (string, token.Pos) {
-		out, pos := "", token.NoPos
-		ast.Inspect(fn.Decl.Body, func(n ast.Node) bool {
-			if call, ok := n.(*ast.CallExpr); ok && p.CalleeName(fn.Info(), call) == "fmt.Sprintf" && len(call.Args) == 2 {
-				if bl, ok := call.Args[0].(*ast.BasicLit); ok && strings.HasSuffix(bl.Value, `%s"`) && strings.Contains(bl.Value, "plugin") {
-					out, pos = strings.TrimSuffix(strings.Trim(bl.Value, `"`), "%s"), call.Pos()
-				}
+	// Expressions are compared by what they are defined as: a local defined once stands for its definition, a
+	// constant for its value, fmt.Sprintf("lit%s", x) for "lit" + x.
+	resolve := func(fn *core.FuncRef, e ast.Expr) ast.Expr {
+		for i := 0; i < 4; i++ {
+			id, ok := core.Unparen(e).(*ast.Ident)
+			if !ok {
+				break
 			}
-			return true
-		})
-		return out, pos
+			v, ok := fn.Info().Uses[id].(*types.Var)
+			if !ok {
+				break
+			}
+			def := singleDef(fn.Info(), fn.Decl.Body, v)
+			if def == nil {
+				break
+			}
+			e = def
+		}
+		return core.Unparen(e)
 	}
-	wPrefix, wPos := sprintfPrefix(inst)
-	rPrefix, _ := sprintfPrefix(bin)
-	// listing: Name: strings.TrimPrefix(dir.Name(), "<prefix>")
-	lPrefix, lHow := "", ""
-	ast.Inspect(list.Decl.Body, func(n ast.Node) bool {
-		kv, ok := n.(*ast.KeyValueExpr)
-		if !ok || core.ExprStr(kv.Key) != "Name" {
-			return true
+	constStr := func(fn *core.FuncRef, e ast.Expr) (string, bool) {
+		if tv, ok := fn.Info().Types[e]; ok && tv.Value != nil && tv.Value.Kind() == constant.String {
+			return constant.StringVal(tv.Value), true
 		}
-		lHow = core.ExprStr(kv.Value)
-		if call, ok := kv.Value.(*ast.CallExpr); ok && p.CalleeName(list.Info(), call) == "strings.TrimPrefix" && len(call.Args) == 2 {
-			if bl, ok := call.Args[1].(*ast.BasicLit); ok && strings.HasSuffix(core.ExprStr(call.Args[0]), ".Name()") {
-				lPrefix = strings.Trim(bl.Value, `"`)
+		return "", false
+	}
+	// prefixOf: the constant prefix of a `prefix + x` / Sprintf("prefix%s", x) name, and the text of x
+	prefixOf := func(fn *core.FuncRef, e ast.Expr) (string, string, bool) {
+		e = resolve(fn, e)
+		switch x := e.(type) {
+		case *ast.BinaryExpr:
+			if x.Op == token.ADD {
+				if pre, ok := constStr(fn, x.X); ok {
+					return pre, core.ExprStr(x.Y), true
+				}
+			}
+		case *ast.CallExpr:
+			if p.CalleeName(fn.Info(), x) == "fmt.Sprintf" && len(x.Args) == 2 {
+				if f, ok := constStr(fn, x.Args[0]); ok && strings.HasSuffix(f, "%s") && strings.Count(f, "%") == 1 {
+					return strings.TrimSuffix(f, "%s"), core.ExprStr(x.Args[1]), true
+				}
 			}
 		}
-		return true
-	})
-	c.Decide(wPrefix != "" && wPrefix == rPrefix && wPrefix == lPrefix, "LAYOUT", "plugins/manager/plugin directory name", wPos, 3,
-		fmt.Sprintf("install, binary lookup and listing all use the prefix %q", wPrefix),
-		fmt.Sprintf("the plugin directory is written as %q+name, looked up as %q+name and listed by %s (prefix %q): the listing must strip exactly the prefix the writers add — any dash-based split loses part of a name that contains dashes", wPrefix, rPrefix, lHow, lPrefix))
-	// path shapes
-	joinArgs := func(fn *core.FuncRef, want int) []string {
-		var out []string
+		return "", "", false
+	}
+	// the filepath.Join rooted in the plugin directory, with `want` levels
+	joinCall := func(fn *core.FuncRef, want int) *ast.CallExpr {
+		var out *ast.CallExpr
 		ast.Inspect(fn.Decl.Body, func(n ast.Node) bool {
-			if call, ok := n.(*ast.CallExpr); ok && p.CalleeName(fn.Info(), call) == "path/filepath.Join" && len(call.Args) == want && core.ExprStr(call.Args[0]) == "getPluginDir()" {
-				out = nil
-				for _, a := range call.Args {
-					out = append(out, core.ExprStr(a))
-				}
+			if call, ok := n.(*ast.CallExpr); ok && p.CalleeName(fn.Info(), call) == "path/filepath.Join" && len(call.Args) == want && core.ExprStr(resolve(fn, call.Args[0])) == "getPluginDir()" {
+				out = call
 			}
 			return true
 		})
 		return out
 	}
-	w := joinArgs(inst, 4)
-	r := joinArgs(bin, 5)
-	okW := len(w) == 4 && w[1] == "repoSlug" && strings.HasPrefix(w[2], "fmt.Sprintf(") && strings.HasSuffix(w[3], ".String()")
-	okR := len(r) == 5 && strings.HasSuffix(r[1], ".Repository") && r[2] == r[4] && strings.HasSuffix(r[3], ".String()")
-	// listing levels: Repository from the outer directory entry, version parsed from the innermost
+	wJoin, rJoin := joinCall(inst, 4), joinCall(bin, 5)
+	wPrefix, rPrefix := "", ""
+	wPos := inst.Decl.Pos()
+	var w, r []string
+	okW, okR := false, false
+	if wJoin != nil {
+		wPos = wJoin.Pos()
+		for _, a := range wJoin.Args {
+			w = append(w, core.ExprStr(resolve(inst, a)))
+		}
+		pre, _, okP := prefixOf(inst, wJoin.Args[2])
+		wPrefix = pre
+		_, lit1 := constStr(inst, wJoin.Args[1])
+		okW = okP && !lit1 && strings.HasSuffix(w[3], ".String()")
+	}
+	if rJoin != nil {
+		for _, a := range rJoin.Args {
+			r = append(r, core.ExprStr(resolve(bin, a)))
+		}
+		pre, _, okP := prefixOf(bin, rJoin.Args[2])
+		rPrefix = pre
+		okR = okP && strings.HasSuffix(r[1], ".Repository") && r[2] == r[4] && strings.HasSuffix(r[3], ".String()")
+	}
+	// listing: Name: strings.TrimPrefix(<entry>.Name(), <prefix>), in the function or a helper
+	lPrefix, lHow := "", ""
 	repoFromOuter, versionParsed := false, false
-	ast.Inspect(list.Decl.Body, func(n ast.Node) bool {
-		if kv, ok := n.(*ast.KeyValueExpr); ok && core.ExprStr(kv.Key) == "Repository" && strings.HasSuffix(core.ExprStr(kv.Value), ".Name()") {
-			repoFromOuter = true
-		}
-		if call, ok := n.(*ast.CallExpr); ok && strings.HasSuffix(p.CalleeName(list.Info(), call), "semver.NewVersion") && strings.HasSuffix(core.ExprStr(call.Args[0]), ".Name()") {
-			versionParsed = true
-		}
-		return true
-	})
+	for _, h := range helperClosure(p, list) {
+		h := h
+		ast.Inspect(h.Decl.Body, func(n ast.Node) bool {
+			switch x := n.(type) {
+			case *ast.KeyValueExpr:
+				switch core.ExprStr(x.Key) {
+				case "Name":
+					v := resolve(h, x.Value)
+					lHow = core.ExprStr(v)
+					if call, ok := v.(*ast.CallExpr); ok && p.CalleeName(h.Info(), call) == "strings.TrimPrefix" && len(call.Args) == 2 {
+						if pre, ok := constStr(h, call.Args[1]); ok && strings.HasSuffix(core.ExprStr(resolve(h, call.Args[0])), ".Name()") {
+							lPrefix = pre
+						}
+					}
+				case "Repository":
+					// listing levels: Repository from the outer directory entry
+					if strings.HasSuffix(core.ExprStr(resolve(h, x.Value)), ".Name()") {
+						repoFromOuter = true
+					}
+				}
+			case *ast.CallExpr:
+				// … and the version parsed from the innermost
+				if strings.HasSuffix(p.CalleeName(h.Info(), x), "semver.NewVersion") && len(x.Args) == 1 && strings.HasSuffix(core.ExprStr(resolve(h, x.Args[0])), ".Name()") {
+					versionParsed = true
+				}
+			}
+			return true
+		})
+	}
+	c.Decide(wPrefix != "" && wPrefix == rPrefix && wPrefix == lPrefix, "LAYOUT", "plugins/manager/plugin directory name", wPos, 3,
+		fmt.Sprintf("install, binary lookup and listing all use the prefix %q", wPrefix),
+		fmt.Sprintf("the plugin directory is written as %q+name, looked up as %q+name and listed by %s (prefix %q): the listing must strip exactly the prefix the writers add — any dash-based split loses part of a name that contains dashes", wPrefix, rPrefix, lHow, lPrefix))
 	c.Decide(okW && okR && repoFromOuter && versionParsed, "LAYOUT", "plugins/manager/path levels", wPos, 4, "<plugins>/<repo>/<prefix+name>/<version>[/<prefix+name>] in all three",
 		fmt.Sprintf("install path %v, binary path %v, listing (repository from level 1: %v, version parsed from level 3: %v) must describe the same tree", w, r, repoFromOuter, versionParsed))
 
@@ -123,44 +181,70 @@ func runC28(c *core.Ctx) {
 		}
 		c.SawFunc(key)
 		found := false
-		ast.Inspect(fn.Decl.Body, func(n ast.Node) bool {
-			call, ok := n.(*ast.CallExpr)
-			if !ok || p.CalleeName(fn.Info(), call) != "sort.Slice" || len(call.Args) != 2 {
-				return true
-			}
-			lit, ok := call.Args[1].(*ast.FuncLit)
-			if !ok || len(lit.Body.List) != 1 {
-				return true
-			}
-			found = true
-			nSort++
-			var a, b string
-			ps := lit.Type.Params.List
-			if len(ps) == 1 && len(ps[0].Names) == 2 {
-				a, b = ps[0].Names[0].Name, ps[0].Names[1].Name
-			}
-			ret, _ := lit.Body.List[0].(*ast.ReturnStmt)
-			good := false
-			if ret != nil && len(ret.Results) == 1 {
-				if gc, ok := ret.Results[0].(*ast.CallExpr); ok {
-					if se, ok := gc.Fun.(*ast.SelectorExpr); ok && se.Sel.Name == "GreaterThan" && len(gc.Args) == 1 {
-						recv, arg := core.ExprStr(se.X), core.ExprStr(gc.Args[0])
-						slice := core.ExprStr(call.Args[0])
-						good = recv == slice+"["+a+"].Number" && arg == slice+"["+b+"].Number"
+		// the sort may sit in a helper; the less function may be a literal, a local or a named function
+		for _, h := range helperClosure(p, fn) {
+			h := h
+			ast.Inspect(h.Decl.Body, func(n ast.Node) bool {
+				call, ok := n.(*ast.CallExpr)
+				if !ok || len(call.Args) != 2 {
+					return true
+				}
+				if cn := p.CalleeName(h.Info(), call); cn != "sort.Slice" && cn != "sort.SliceStable" {
+					return true
+				}
+				lit := funcValueLit(p, h, call.Args[1])
+				if lit == nil {
+					return true
+				}
+				found = true
+				nSort++
+				var a, b string
+				for _, f := range lit.Type.Params.List {
+					for _, nm := range f.Names {
+						if a == "" {
+							a = nm.Name
+						} else if b == "" {
+							b = nm.Name
+						}
 					}
 				}
-			}
-			c.Decide(good, "DESC", key+"/sort", call.Pos(), 1, "less(i, j) = v[i].Number.GreaterThan(v[j].Number)",
-				"the version list must be sorted descending — less(i, j) = v[i].Number.GreaterThan(v[j].Number) — because the resolution loops take the first qualifying element: "+core.ExprStr(lit.Body.List[0]))
-			return true
-		})
+				slice := core.ExprStr(call.Args[0])
+				// less(i, j) is interpreted: its result must be "element i is greater than element j"
+				in := newInterp(p, h)
+				in.Hooks.Call = func(st *absint.State, call *ast.CallExpr, callee string, recv absint.Val, args []absint.Val) (absint.Val, bool) {
+					if len(args) != 1 {
+						return nil, false
+					}
+					switch {
+					case strings.HasSuffix(callee, "semver.(*Version).GreaterThan"):
+						return absint.S("GT(" + recv.Canon() + "," + args[0].Canon() + ")"), true
+					case strings.HasSuffix(callee, "semver.(*Version).LessThan"):
+						return absint.S("GT(" + args[0].Canon() + "," + recv.Canon() + ")"), true
+					}
+					return nil, false
+				}
+				outs, err := runLit(in, lit, nil, "")
+				want := "GT(" + slice + "[" + a + "].Number," + slice + "[" + b + "].Number)"
+				good := err == nil && len(outs) > 0
+				got := ""
+				for _, o := range outs {
+					if o.Kind != "return" || len(o.Values) != 1 || o.Values[0].Canon() != want {
+						good = false
+						got = o.String()
+					}
+				}
+				c.Decide(good, "DESC", key+"/sort", call.Pos(), 1, "less(i, j) = v[i].Number.GreaterThan(v[j].Number)",
+					"the version list must be sorted descending — less(i, j) = v[i].Number.GreaterThan(v[j].Number) — because the resolution loops take the first qualifying element: "+got)
+				return true
+			})
+		}
 		if !found {
 			c.Bad("DESC", key+"/sort", fn.Decl.Pos(), 1, "the version list is not sorted: the resolution loops take the first qualifying element, which must be the highest")
 		}
 	}
 
 	// ---- FIRST: install
-	checkFirstMatchLoop(c, inst, "plugins/manager.(*PluginManager).Install", "manifest.Versions", true)
+	checkFirstMatchLoop(c, inst, "plugins/manager.(*PluginManager).Install", true)
 	// ---- FIRST: startup
 	root := p.Func("cmd", "init$rootCmd")
 	if root == nil {
@@ -175,102 +259,260 @@ func runC28(c *core.Ctx) {
 		return
 	}
 	c.SawFunc(p.FName(root))
-	checkFirstMatchLoop(c, root, "cmd/root.go startup", "plugin.Versions", false)
-	// plugins matched by full reference
-	refOK := false
-	ast.Inspect(root.Decl.Body, func(n ast.Node) bool {
-		if is, ok := n.(*ast.IfStmt); ok {
-			cs := core.ExprStr(is.Cond)
-			if strings.Contains(cs, ".Reference != ") && strings.HasSuffix(cs, ".Type") {
-				for _, s := range is.Body.List {
-					if b, ok := s.(*ast.BranchStmt); ok && b.Tok == token.CONTINUE {
-						refOK = true
+	checkFirstMatchLoop(c, root, "cmd/root.go startup", false)
+	// plugins matched by full reference: the body of the loop over the installed plugins is interpreted with the
+	// plugin's reference equal / not equal to the database's type — only a plugin with the same full reference has
+	// its versions looked at
+	matchBad, matched := "", 0
+	for _, vl := range versionLoops(p, root) {
+		if vl.outer == nil || vl.outer.Value == nil {
+			matchBad = "the version loop is not inside a loop over the installed plugins"
+			continue
+		}
+		pl := core.ExprStr(vl.outer.Value)
+		for _, eq := range []bool{true, false} {
+			eq := eq
+			in := newInterp(p, vl.fn)
+			in.MaxPaths = 2000
+			in.Hooks.Cond = func(st *absint.State, atom string) (bool, bool) {
+				if strings.Contains(atom, pl+".Reference") && strings.Contains(atom, " == ") {
+					return eq, true
+				}
+				return false, false
+			}
+			in.Hooks.Loop = func(st *absint.State, loop ast.Stmt) *absint.LoopSpec {
+				return &absint.LoopSpec{Cases: []string{"V"}, MaxIter: 1, MinIter: 1, RefStep: func(ref, cs string) string { return "" }}
+			}
+			in.Hooks.Call = chainCall(func(st *absint.State, call *ast.CallExpr, callee string, recv absint.Val, args []absint.Val) (absint.Val, bool) {
+				if strings.HasSuffix(callee, "semver.Constraints.Check") || strings.HasSuffix(callee, "semver.(*Constraints).Check") {
+					st.Emit("CHECK", call.Pos())
+				}
+				return nil, false
+			}, errorfHook)
+			outs, err := in.Run(&ast.FuncType{Params: &ast.FieldList{}, Results: vl.results}, nil, vl.outer.Body, nil, "")
+			if err != nil {
+				matchBad = err.Error()
+				continue
+			}
+			looked := 0
+			for _, o := range outs {
+				matched++
+				for _, e := range o.Events {
+					if e.Name == "CHECK" {
+						looked++
+						break
 					}
 				}
 			}
+			if !eq && looked > 0 {
+				matchBad = "the versions of a plugin with another reference (repository/name) are considered for the database"
+			}
+			if eq && looked == 0 {
+				matchBad = "the versions of the plugin with the database's own reference are never looked at"
+			}
 		}
-		return true
-	})
-	c.Decide(refOK, "FIRST", "cmd/root.go startup/plugin match", root.Decl.Pos(), 1, "installed plugin matched by its full reference (repository and name)",
-		"a configured database must be matched to the installed plugin with the same full reference (repository/name), skipping all others")
+	}
+	if matched == 0 && matchBad == "" {
+		matchBad = "no loop over the installed plugins around the version loop"
+	}
+	c.Decide(matchBad == "", "FIRST", "cmd/root.go startup/plugin match", root.Decl.Pos(), matched, "installed plugin matched by its full reference (repository and name)",
+		"a configured database must be matched to the installed plugin with the same full reference (repository/name), skipping all others: "+matchBad)
 }
 
-// checkFirstMatchLoop: `for _, v := range <list> { … if <qualifies> { <take v>; break/continue outer } }`.
-func checkFirstMatchLoop(c *core.Ctx, fn *core.FuncRef, key, list string, install bool) {
-	_ = c.Prog
-	var loop *ast.RangeStmt
-	ast.Inspect(fn.Decl.Body, func(n ast.Node) bool {
-		if rs, ok := n.(*ast.RangeStmt); ok && core.ExprStr(rs.X) == list {
-			loop = rs
+// versionLoop: a range loop over a slice of plugin versions (a struct type named Version with a Number field),
+// found in fn or a helper it reaches.
+type versionLoop struct {
+	fn      *core.FuncRef
+	loop    *ast.RangeStmt
+	results *ast.FieldList // of the function (literal) the loop sits in
+	elem    string         // the element expression: the value variable, or list[key]
+	outer   *ast.RangeStmt // the enclosing range loop over installed plugins, if any
+}
+
+func versionLoops(p *core.Program, fn *core.FuncRef) []versionLoop {
+	var out []versionLoop
+	isNamedSlice := func(t types.Type, name string) bool {
+		if t == nil {
+			return false
 		}
-		return true
-	})
-	if loop == nil {
-		c.Unknown("FIRST", key, fn.Decl.Pos(), "no loop over "+list)
+		sl, ok := t.Underlying().(*types.Slice)
+		if !ok {
+			return false
+		}
+		n, ok := sl.Elem().(*types.Named)
+		return ok && n.Obj().Name() == name && n.Obj().Pkg() != nil && strings.Contains(n.Obj().Pkg().Path(), "/plugins/")
+	}
+	for _, h := range helperClosure(p, fn) {
+		h := h
+		info := h.Info()
+		core.WalkStack(h.Decl.Body, func(n ast.Node, stack []ast.Node) bool {
+			rs, ok := n.(*ast.RangeStmt)
+			if !ok || !isNamedSlice(info.TypeOf(rs.X), "Version") {
+				return true
+			}
+			vl := versionLoop{fn: h, loop: rs, results: h.Decl.Type.Results}
+			if lit := core.InnermostFuncLit(stack); lit != nil {
+				vl.results = lit.Type.Results
+			}
+			switch {
+			case rs.Value != nil && core.ExprStr(rs.Value) != "_":
+				vl.elem = core.ExprStr(rs.Value)
+			case rs.Key != nil && core.ExprStr(rs.Key) != "_":
+				vl.elem = core.ExprStr(rs.X) + "[" + core.ExprStr(rs.Key) + "]"
+			}
+			for i := len(stack) - 1; i >= 0; i-- {
+				if _, isLit := stack[i].(*ast.FuncLit); isLit {
+					break
+				}
+				if o, ok := stack[i].(*ast.RangeStmt); ok && isNamedSlice(info.TypeOf(o.X), "PluginMetadata") {
+					vl.outer = o
+					break
+				}
+			}
+			out = append(out, vl)
+			return true
+		})
+	}
+	return out
+}
+
+func mentions(canon, name string) bool {
+	return regexp.MustCompile(`(^|[^A-Za-z0-9_.])` + regexp.QuoteMeta(name) + `($|[^A-Za-z0-9_])`).MatchString(canon)
+}
+
+// checkFirstMatchLoop interprets one iteration of the version loop for every answer of the qualifying tests:
+// a qualifying version is taken (stored outside the loop or returned) and the loop is left at once; a version
+// that does not qualify is not taken and the loop goes on. Together with the descending order (DESC) that is
+// "the highest qualifying version". For Install, qualifying means: the constraint accepts it, or — without a
+// constraint — it has no prerelease tag.
+func checkFirstMatchLoop(c *core.Ctx, fn *core.FuncRef, key string, install bool) {
+	p := c.Prog
+	loops := versionLoops(p, fn)
+	if len(loops) == 0 {
+		c.Unknown("FIRST", key, fn.Decl.Pos(), "no loop over a list of plugin versions")
 		return
 	}
-	if loop.Value == nil {
-		c.Bad("FIRST", key, loop.Pos(), 1, "the loop must walk the versions in list order")
-		return
-	}
-	v := core.ExprStr(loop.Value)
-	// every statement that takes a version is directly followed by leaving the loop, and is guarded by a qualifying test
-	takes, leaves := 0, 0
-	guards := map[string]bool{}
-	var walk func(list []ast.Stmt, conds []string)
-	walk = func(stmts []ast.Stmt, conds []string) {
-		for i, s := range stmts {
-			switch x := s.(type) {
-			case *ast.IfStmt:
-				walk(x.Body.List, append(append([]string{}, conds...), core.ExprStr(x.Cond)))
-				if x.Else != nil {
-					switch e := x.Else.(type) {
-					case *ast.BlockStmt:
-						walk(e.List, append(append([]string{}, conds...), "!("+core.ExprStr(x.Cond)+")"))
-					case *ast.IfStmt:
-						walk([]ast.Stmt{e}, append(append([]string{}, conds...), "!("+core.ExprStr(x.Cond)+")"))
+	for li, vl := range loops {
+		lkey := key
+		if li > 0 {
+			lkey = fmt.Sprintf("%s#%d", key, li+1)
+		}
+		if vl.elem == "" {
+			c.Bad("FIRST", lkey, vl.loop.Pos(), 1, "the loop must walk the versions in list order")
+			continue
+		}
+		c.SawFunc(p.FName(vl.fn))
+		lo, hi := vl.loop.Body.Pos(), vl.loop.Body.End()
+		type scenario struct{ constraintNil, check, prerelEmpty bool }
+		run := func(sc *scenario, checkRecv *string, checkArg *string) ([]*absint.Outcome, error) {
+			in := newInterp(p, vl.fn)
+			in.MaxPaths = 2000
+			in.Hooks.Store = func(st *absint.State, obj types.Object, v absint.Val) {
+				if (obj.Pos() < lo || obj.Pos() > hi) && v != nil && mentions(v.Canon(), vl.elem) {
+					st.Emit("TAKE", token.NoPos, v)
+				}
+			}
+			in.Hooks.Cond = func(st *absint.State, atom string) (bool, bool) {
+				if sc != nil && *checkRecv != "" && (atom == "("+*checkRecv+" == nil)" || atom == "(nil == "+*checkRecv+")") {
+					return sc.constraintNil, true
+				}
+				return false, false
+			}
+			in.Hooks.Call = chainCall(func(st *absint.State, call *ast.CallExpr, callee string, recv absint.Val, args []absint.Val) (absint.Val, bool) {
+				switch {
+				case (strings.HasSuffix(callee, "semver.(*Constraints).Check") || strings.HasSuffix(callee, "semver.Constraints.Check")) && len(args) == 1:
+					*checkRecv, *checkArg = recv.Canon(), args[0].Canon()
+					st.Emit("CHECK", call.Pos(), recv, args[0])
+					if sc != nil {
+						return absint.Bool(sc.check), true
+					}
+				case strings.HasSuffix(callee, "semver.Version.Prerelease") || strings.HasSuffix(callee, "semver.(*Version).Prerelease"):
+					if sc != nil {
+						if sc.prerelEmpty {
+							return absint.Str(""), true
+						}
+						return absint.Str("rc.1"), true
 					}
 				}
-			case *ast.AssignStmt:
-				r := core.ExprStr(x.Rhs[0])
-				if r == "&"+v || r == v+".Number" || r == v {
-					takes++
-					for _, cd := range conds {
-						guards[cd] = true
-					}
-					if i+1 < len(stmts) {
-						if b, ok := stmts[i+1].(*ast.BranchStmt); ok && (b.Tok == token.BREAK || (b.Tok == token.CONTINUE && b.Label != nil)) {
-							leaves++
-						}
-					}
+				return nil, false
+			}, errorfHook)
+			return in.Run(&ast.FuncType{Params: &ast.FieldList{}, Results: vl.results}, nil, vl.loop.Body, nil, "")
+		}
+		recvC, argC := "", ""
+		if _, err := run(nil, &recvC, &argC); err != nil {
+			c.Unknown("FIRST", lkey, vl.loop.Pos(), err.Error())
+			continue
+		}
+		if recvC == "" {
+			c.Bad("FIRST", lkey, vl.loop.Pos(), 1, "a version is taken without testing it against the constraint (constraint.Check(version))")
+			continue
+		}
+		bad := ""
+		if argC != vl.elem+".Number" {
+			bad = "the constraint is checked against " + argC + ", not against the version at hand (" + vl.elem + ".Number)"
+		}
+		var scs []scenario
+		for _, ck := range []bool{true, false} {
+			for _, pe := range []bool{true, false} {
+				scs = append(scs, scenario{false, ck, pe})
+				if install {
+					scs = append(scs, scenario{true, ck, pe})
 				}
 			}
 		}
-	}
-	walk(loop.Body.List, nil)
-	bad := ""
-	if takes == 0 {
-		bad = "no version is taken inside the loop"
-	} else if takes != leaves {
-		bad = fmt.Sprintf("after taking a version the loop must be left at once (%d takes, %d of them followed by break/continue-outer): otherwise a later, lower version replaces the first match", takes, leaves)
-	}
-	hasCheck, hasPre, hasNilTest := false, false, false
-	for g := range guards {
-		if strings.Contains(g, ".Check("+v+".Number)") {
-			hasCheck = true
+		paths := 0
+		for _, sc := range scs {
+			sc := sc
+			if bad != "" {
+				break
+			}
+			r2, a2 := recvC, argC
+			outs, err := run(&sc, &r2, &a2)
+			if err != nil {
+				bad = err.Error()
+				break
+			}
+			qualifies := sc.check
+			if sc.constraintNil {
+				qualifies = sc.prerelEmpty
+			}
+			what := fmt.Sprintf("constraint given=%v, accepted=%v, prerelease tag=%v", !sc.constraintNil, sc.check, !sc.prerelEmpty)
+			for _, o := range outs {
+				paths++
+				taken, checked := false, false
+				for _, e := range o.Events {
+					switch {
+					case e.Name == "TAKE":
+						taken = true
+					case e.Name == "CHECK":
+						checked = true
+					case strings.HasPrefix(e.Name, "store ") && len(e.Args) == 1 && mentions(e.Args[0].Canon(), vl.elem):
+						taken = true
+					}
+				}
+				for _, v := range o.Values {
+					if o.Kind == "return" && v != nil && mentions(v.Canon(), vl.elem) {
+						taken = true
+					}
+				}
+				leaves := o.Kind == "break" || o.Kind == "return" || (o.Kind == "continue" && o.Label != "")
+				goesOn := o.Kind == "fallthrough" || (o.Kind == "continue" && o.Label == "")
+				switch {
+				case sc.constraintNil && checked:
+					bad = "Check is called on a nil constraint (" + what + ")"
+				case qualifies && !taken:
+					bad = "a qualifying version is not taken (" + what + ")"
+				case qualifies && !leaves:
+					bad = "after taking a version the loop must be left at once: otherwise a later, lower version replaces the first match (" + what + ")"
+				case !qualifies && taken:
+					bad = "a version that does not qualify is taken (" + what + ")"
+				case !qualifies && !goesOn && o.Kind != "return":
+					bad = "the search stops at a version that does not qualify (" + what + "): " + o.Kind
+				case !qualifies && o.Kind == "return" && !(len(o.Values) > 0 && isNonNilErr(o.Values[len(o.Values)-1])):
+					bad = "the search ends at a version that does not qualify (" + what + ")"
+				}
+			}
 		}
-		if strings.Contains(g, v+".Number.Prerelease() == \"\"") {
-			hasPre = true
-		}
-		if strings.Contains(g, "constraint != nil") {
-			hasNilTest = true
-		}
+		c.Decide(bad == "", "FIRST", lkey, vl.loop.Pos(), paths, "a qualifying version is taken and the loop left; any other version is passed over", bad)
 	}
-	if bad == "" && !hasCheck {
-		bad = "a version is taken without testing it against the constraint (constraint.Check(version))"
-	}
-	if bad == "" && install && (!hasPre || !hasNilTest) {
-		bad = fmt.Sprintf("without a constraint the first version without a prerelease tag must be taken (prerelease test: %v, constraint-nil test: %v)", hasPre, hasNilTest)
-	}
-	c.Decide(bad == "", "FIRST", key, loop.Pos(), takes, "first qualifying version in list order, then leave the loop", bad)
 }
